@@ -542,6 +542,8 @@ def protocol_cases(draw):
 @st.composite
 def whole_cases(draw):
   prog = draw(progs.programs(strict=True, max_nodes=5, maxdepth=2, with_test_start=False))
+  for ph in progs.all_phases(prog):
+    ph.pop('monitored', None)      # monitored bodies wait in real time for their monitor's samples: not under the scheduler
   if draw(st.booleans()):
     n = draw(st.integers(1, 3))
     plan_ = {str(draw(st.integers(0, 900))): draw(st.integers(0, 3)) for _ in range(n)}
